@@ -21,7 +21,8 @@ import OccaProofs.Lemmas.TrieInv
 namespace Occa.Trie.C28
 open Occa.Trie
 
-variable {α V : Type} [DecidableEq α] [LT α] [DecidableRel (α := α) (· < ·)] [Inhabited α] [TotalLT α]
+section Spec
+variable {α V : Type} [DecidableEq α]
 
 /-! ### the specification is a finite map (what "stored" and "most recently added" mean) -/
 
@@ -105,13 +106,6 @@ theorem C28_spec_lookup_remove_other (M : List (List α × V)) (k k' : List α) 
       · rfl
       · exact ih
 
-/-- the keys of the map denoted by a history are pairwise distinct, so its length is the number
-    of stored keys -/
-theorem C28_spec_distinct_keys (ops : List (Op α V)) :
-    ((specRun ([] : List (List α × V)) ops).map (·.1)).Nodup := by
-  obtain ⟨t, _, h⟩ := inv_run (inv_init (α := α) (V := V)) ops
-  exact h.nodup
-
 /-- `longestPrefix M q = some (n, v)` says exactly: the first `n` characters of `q` are a stored
     key with value `v`, and no longer prefix of `q` is stored -/
 theorem C28_longestPrefix_some (M : List (List α × V)) (q : List α) (n : Nat) (v : V) :
@@ -125,7 +119,19 @@ theorem C28_longestPrefix_none (M : List (List α × V)) (q : List α) :
     longestPrefix M q = none ↔ ∀ m, m ≤ q.length → lookup (q.take m) M = none := by
   rw [longestPrefix, longestPrefix_go_eq, longestTake_none_iff]
 
+end Spec
+
+variable {α V : Type} [DecidableEq α] [LT α] [DecidableRel (α := α) (· < ·)] [Inhabited α] [TotalLT α]
+
 /-! ### the property -/
+
+/-- the keys of the map denoted by a history are pairwise distinct, so its length is the number
+    of stored keys -/
+theorem C28_spec_distinct_keys (ops : List (Op α V)) :
+    ((specRun ([] : List (List α × V)) ops).map (·.1)).Nodup := by
+  obtain ⟨t, _, h⟩ := inv_run (inv_init (α := α) (V := V)) ops
+  exact h.nodup
+
 
 /-- (a) no history traps: every write of `freeze` and every read of the frozen lookup stays
     inside the arrays, reads only written cells, and `values` is never indexed out of range -/
